@@ -12,7 +12,6 @@ use proto_vulcan::operator::conde::Conde;
 use proto_vulcan::operator::conj::{Conj, InferredConj};
 use proto_vulcan::operator::fngoal::FnGoal;
 use proto_vulcan::operator::fresh::Fresh;
-use proto_vulcan::operator::project::Project;
 use proto_vulcan::operator::{self, ClosureOperatorParam, ForOperatorParam, OperatorParam, PatternMatchOperatorParam};
 use proto_vulcan::relation;
 use proto_vulcan::solver::Solver;
@@ -118,7 +117,7 @@ pub fn var_name(v: V) -> &'static str {
 }
 
 /// Search mode of the goal being built.
-pub trait Mode: AnyGoal<U, E> + Sized {
+pub trait Mode: AnyGoal<U, E> + GoalCast<U, E, Self> + Sized {
     const IS_DFS: bool;
     fn from_bfs(g: BGoal) -> Self;
 }
@@ -411,9 +410,10 @@ impl Builder {
                 let env2 = env.clone();
                 let vs2 = vs.clone();
                 let gs2 = gs.clone();
-                Project::new(
-                    vars,
-                    Box::new(move |projected: &[L]| {
+                // The goal is built by the REAL `project` macro (for up to three projected variables),
+                // so that the macro expansion and the operator are exercised together, exactly as
+                // a user gets them; the body is handed over as a Rust expression clause.
+                let mk: Rc<dyn Fn(&[L]) -> M> = Rc::new(move |projected: &[L]| {
                         let mut env3 = env2.clone();
                         for (v, p) in vs2.iter().zip(projected.iter()) {
                             env3.map.insert(*v, p.clone());
@@ -446,9 +446,28 @@ impl Builder {
                         body.push(vec![mon("end", pairs)]);
                         let refs: Vec<&[M]> = body.iter().map(|c| &c[..]).collect();
                         InferredConj::from_conjunctions(&refs).cast_into()
-                    }),
-                )
-                .cast_into()
+                    });
+                match vars.len() {
+                    1 => {
+                        let p0 = vars[0].clone();
+                        let g: proto_vulcan::goal::InferredGoal<U, E, M> = proto_vulcan::proto_vulcan!(project |p0| { (mk)(&[p0.clone()]) });
+                        g.cast_into()
+                    }
+                    2 => {
+                        let p0 = vars[0].clone();
+                        let p1 = vars[1].clone();
+                        let g: proto_vulcan::goal::InferredGoal<U, E, M> = proto_vulcan::proto_vulcan!(project |p0, p1| { (mk)(&[p0.clone(), p1.clone()]) });
+                        g.cast_into()
+                    }
+                    3 => {
+                        let p0 = vars[0].clone();
+                        let p1 = vars[1].clone();
+                        let p2 = vars[2].clone();
+                        let g: proto_vulcan::goal::InferredGoal<U, E, M> = proto_vulcan::proto_vulcan!(project |p0, p1, p2| { (mk)(&[p0.clone(), p1.clone(), p2.clone()]) });
+                        g.cast_into()
+                    }
+                    n => panic!("harness: project over {} variables is not generated", n),
+                }
             }
             G::For(v, kind, coll, cs) => {
                 let items: Vec<L> = coll.iter().map(|x| t(env, x)).collect();
